@@ -45,6 +45,23 @@ def _below_root(path, rootname):
     return path[1:]
 
 
+import re
+
+_WS = re.compile(r"\s+")
+
+
+def norm_obs_expr(v: str, rootname: str) -> str:
+    """Observed expression with every substituted node path replaced by ${} and whitespace collapsed."""
+    pat = re.compile(
+        r"(instance\('__last-saved'\))?(current\(\)/)?((\.\./)+[\w.\-]+(/[\w.\-]+)*|(\.\./)*\.\.(?![\w/])|/" + re.escape(rootname) + r"(/[\w.\-]+)+)"
+    )
+    return _WS.sub(" ", pat.sub(" ${} ", v)).strip()
+
+
+def norm_src_expr(v: str) -> str:
+    return _WS.sub(" ", re.sub(r"\$\{[^}]*\}", " ${} ", v)).strip()
+
+
 def observe(xform: str) -> dict:
     """Project the emitted XForm into the facts the C04/C02 envelopes talk about."""
     root = project.parse(xform)
@@ -62,7 +79,7 @@ def observe(xform: str) -> dict:
             t, tr = "tmpl", idx
         else:
             t, tr = "no", 0
-        inst.append({"p": p, "t": t, "ta": is_troot, "tr": tr, "attrs": sorted(project.qname(a) for a in e.attrib if a != project.TEMPLATE_ATTR)})
+        inst.append({"p": p, "t": t, "ta": is_troot, "tr": tr, "text": (e.text or "") if len(e) == 0 else "", "attrs": sorted(project.qname(a) for a in e.attrib if a != project.TEMPLATE_ATTR)})
         for k in list(e):
             walk(k, p, tr)
 
@@ -92,7 +109,8 @@ def observe(xform: str) -> dict:
             attr = sp[-1][1:]
             sp = sp[:-1]
         below = _below_root(sp, rootname)
-        binds.append({"p": below if below is not None else ["?" + str(b["nodeset"])], "attr": attr, "abs": below is not None})
+        binds.append({"p": below if below is not None else ["?" + str(b["nodeset"])], "attr": attr, "abs": below is not None,
+                      "attrs": [[k, v, norm_obs_expr(v, rootname)] for k, v in b["attrs"].items()]})
     actions = []
     for a in project.all_setvalues(root) + [x for x in project.model_actions(root) if x["tag"] not in ("setvalue", "odk:setgeopoint")]:
         ref = a.get("ref")
@@ -102,7 +120,16 @@ def observe(xform: str) -> dict:
             sp = sp[:-1]
         below = _below_root(sp, rootname)
         actions.append({"p": below if below is not None else ["?" + str(ref)], "abs": below is not None, "tag": a["tag"]})
-    return {"inst": inst, "body": body, "binds": binds, "actions": actions, "root": rootname}
+    setv = []
+    for a in project.all_setvalues(root):
+        sp = project.split_path(a.get("ref")) if a.get("ref") else None
+        below = _below_root(sp, rootname)
+        rp = _below_root(project.split_path(a["repeat"]), rootname) if a.get("repeat") else []
+        pp = _below_root(project.split_path(a["parent_ref"]), rootname) if a.get("parent_ref") else []
+        setv.append({"p": below if below is not None else ["?"], "tag": a["tag"], "where": a["where"], "rep": rp or [],
+                     "parent": pp or [], "events": (a.get("event") or "").split(), "hasvalue": "value" in a,
+                     "value": norm_obs_expr(a.get("value", ""), rootname)})
+    return {"inst": inst, "body": body, "binds": binds, "actions": actions, "setv": setv, "root": rootname}
 
 
 def _tl(v):
@@ -133,7 +160,7 @@ def residual_refs(xform: str) -> int:
     return sum(1 for _, _, v in project.all_attr_values(root) if "${" in v)
 
 
-def build(result: dict, cfg: dict, with_refs: bool = False):
+def build(result: dict, cfg: dict, with_refs: bool = False, src: dict | None = None):
     """-> (trace, in_fragment). result is conv.convert_case output (with events)."""
     rows = [e for e in result.get("events", []) if e["ev"] in ("row", "rows_done") or (with_refs and e["ev"] == "ref")]
     trace = []
@@ -165,6 +192,9 @@ def build(result: dict, cfg: dict, with_refs: bool = False):
         if with_refs:
             end["residual"] = residual_refs(result["xform"])
     else:
-        end["obs"] = {"inst": [], "body": [], "binds": [], "actions": [], "root": ""}
+        end["obs"] = {"inst": [], "body": [], "binds": [], "actions": [], "setv": [], "root": ""}
+    end["src"] = {"binds": [], "defaults": [], "triggers": []}
+    if src:
+        end["src"].update(src)
     trace.append(end)
     return trace, frag
